@@ -413,3 +413,29 @@ package fzf
 //@ property C16
 //@ assert @"net.Listen(" (address.host == "localhost" || address.host == "127.0.0.1") || len(apiKey) > 0
 //@ cut @"go func()" the accept loop runs in its own goroutine (outside the verified subset)
+
+// ---------------------------------------------------------------- reader
+//@ package github.com/junegunn/fzf/src/util
+//@ func IsWindows trusted
+//@ package github.com/junegunn/fzf/src
+
+// Ownership: once a record has been handed to the pusher (it becomes an item's text without copying),
+// its bytes are never written again - neither by a later Read into the slab nor by stitching a later
+// record into the leftover buffer.  (Ghost "owned" bits are set by the pusher effect; every write to
+// []byte memory in this function carries the obligation that the cell is not owned.)
+//@ func Reader.feed
+//@ property C06
+//@ track own uint8
+//@ requires r != nil
+//@ effect call r.pusher requires true sets own(arg0)
+//@ loop 1
+//@   invariant fresh(slab) && len(slab) >= 1 && len(slab) <= 131072 && unowned(slab, 0, cap(slab))
+//@   invariant unowned(leftover, len(leftover), cap(leftover)) && fresh(leftover) && !sameArray(leftover, slab)
+//@ loop 2
+//@   invariant 0 <= i && 0 <= n && n <= len(scope) && sameArray(scope, slab) && scope.off == slab.off && len(scope) <= len(slab)
+//@   invariant fresh(slab) && len(slab) >= 1 && len(slab) <= 131072 && unowned(slab, 0, cap(slab))
+//@   invariant unowned(leftover, len(leftover), cap(leftover)) && fresh(leftover) && !sameArray(leftover, slab)
+//@ loop 3
+//@   invariant fresh(slab) && unowned(slab, 0, cap(slab)) && len(slab) <= 131072
+//@   invariant sameArray(buf, slab) && buf.off + len(buf) == slab.off
+//@   invariant unowned(leftover, len(leftover), cap(leftover)) && fresh(leftover) && !sameArray(leftover, slab)
